@@ -45,6 +45,7 @@ def main():
     ap.add_argument("--files", default="")
     ap.add_argument("--slot", default="0")
     ap.add_argument("--ops", default="")
+    ap.add_argument("--orig-re", default="", help="only sites whose original text matches this regex")
     ap.add_argument("--keep-suite-killed", action="store_true")
     ap.add_argument("--retest-survivors", action="store_true", help="re-run the recorded survivors (matched by file, function, operator and original text) against the current check")
     a = ap.parse_args()
@@ -87,6 +88,8 @@ def main():
             s["file"] = os.path.relpath(s["file"], wt)
         if a.ops:
             sites = [s for s in sites if re.search(a.ops, s["op"])]
+        if a.orig_re:
+            sites = [s for s in sites if re.search(a.orig_re, s["orig"])]
         rnd = random.Random("%s/%d" % (a.pid, a.seed))
         # stratified by file so that a large file does not crowd out the small ones
         byfile = {}
